@@ -5,7 +5,7 @@ package main
 
 import (
 	"fmt"
-	"go/token"
+	"go/ast"
 
 	"golang.org/x/tools/go/ssa"
 )
@@ -88,5 +88,134 @@ func runC16(c *Ctx, r *Report) {
 			fmt.Sprintf("Entries and heads of the bounded merge derive from one suffix slice (%s) of values() computed after the unbounded merge", p.Pos(shared.Pos())),
 			fmt.Sprintf("bounded merge shape broken: suffix-slice=%v linearisation-from-values()=%v computed-after-unbounded-merge=%v", suffix, vcall != nil, after))
 	}
-	_ = token.NoPos
+	// ---- R-C16.3: every success return after the lock passes the bound test
+	r.Doc("R-C16.3", "every success return of Join reached after its lock is taken has passed the test of the size bound (the truncation cannot be skipped)")
+	r.Doc("R-C16.4", "the size bound is used only in comparisons and in the truncating slice: the set of merged candidates does not depend on it")
+	sizeObj := paramObj(join, 1)
+	jf := &Flow{P: p, Fn: join, Entry: Facts{}}
+	jf.Node = func(n ast.Node, f Facts) {
+		walkNoLit(n, func(nd ast.Node) bool {
+			if call, ok := nd.(*ast.CallExpr); ok {
+				if cf := p.Callee(join, call); cf != nil && cf.Pkg() != nil && cf.Pkg().Path() == "sync" && cf.Name() == "Lock" {
+					if _, isDefer := p.parent[call].(*ast.DeferStmt); !isDefer {
+						f["locked"] = true
+					}
+				}
+			}
+			return true
+		})
+	}
+	jf.Edge = func(cond ast.Expr, taken bool, f Facts) {
+		ast.Inspect(cond, func(m ast.Node) bool {
+			if id, ok := m.(*ast.Ident); ok && p.ObjOf(join, id) == sizeObj {
+				f["boundTested"] = true
+			}
+			return true
+		})
+	}
+	jf.Run()
+	nsr := 0
+	jf.Exits(func(_ *cfgBlk, ret *ast.ReturnStmt, at Facts) {
+		if ret == nil || !at["locked"] {
+			return
+		}
+		if isNil, hasErr := errResultIsNil(p, join, ret); hasErr && isNil {
+			nsr++
+			r.Check(at["boundTested"], "R-C16.3", r.Key("R-C16.3", join, "success-return", ""), ret.Pos(),
+				"the size bound is examined on every path to this success return", "Join can return success after taking its lock without ever examining the size bound: a bounded merge that brings nothing new (or takes this shortcut) leaves the log longer than the bound")
+		}
+	})
+	r.Floor("R-C16.3", "success returns of Join after the lock", nsr, 1)
+	// ---- R-C16.4
+	var sizePar *ssa.Parameter
+	for _, par := range sf.Params {
+		if par.Object() == sizeObj {
+			sizePar = par
+		}
+	}
+	if sizePar == nil {
+		infra("unresolved anchor: Join's size parameter in SSA")
+	}
+	derived := map[ssa.Value]bool{sizePar: true}
+	// a spilled parameter lives in a cell
+	for changed := true; changed; {
+		changed = false
+		allInstrs(sf, true, func(ins ssa.Instruction) {
+			switch x := ins.(type) {
+			case *ssa.Store:
+				if derived[x.Val] && !derived[x.Addr] {
+					if _, isAlloc := x.Addr.(*ssa.Alloc); isAlloc {
+						derived[x.Addr] = true
+						changed = true
+					}
+				}
+			case *ssa.UnOp:
+				if derived[x.X] && !derived[x] {
+					derived[x] = true
+					changed = true
+				}
+			case *ssa.BinOp:
+				if (derived[x.X] || derived[x.Y]) && !derived[x] && isIntType(x.Type()) {
+					derived[x] = true
+					changed = true
+				}
+			case *ssa.Phi:
+				for _, e := range x.Edges {
+					if derived[e] && !derived[x] {
+						derived[x] = true
+						changed = true
+					}
+				}
+			case *ssa.Convert:
+				if derived[x.X] && !derived[x] {
+					derived[x] = true
+					changed = true
+				}
+			case *ssa.Call:
+				if b, ok := x.Call.Value.(*ssa.Builtin); ok && (b.Name() == "min" || b.Name() == "max") {
+					for _, a := range x.Call.Args {
+						if derived[a] && !derived[x] {
+							derived[x] = true
+							changed = true
+						}
+					}
+				}
+			}
+		})
+	}
+	nuse := 0
+	badUse := ""
+	allInstrs(sf, true, func(ins ssa.Instruction) {
+		switch x := ins.(type) {
+		case *ssa.Call:
+			if _, isB := x.Call.Value.(*ssa.Builtin); isB {
+				return
+			}
+			for _, a := range x.Call.Args {
+				if derived[a] {
+					nuse++
+					cal := "a function value"
+					if sc := x.Call.StaticCallee(); sc != nil {
+						cal = sc.Name()
+						// small pure int helpers (min/max-like) keep the value inside arithmetic
+						if lp := NewLenProver(p, sf); isIntType(x.Type()) && lp.summary(sc, x.Call.Args, linAtom("r"), false) != nil {
+							derived[x] = true
+							return
+						}
+					}
+					badUse = fmt.Sprintf("passed to %s at %s", cal, p.Pos(x.Pos()))
+				}
+			}
+		case *ssa.Store:
+			if derived[x.Val] {
+				if _, isAlloc := x.Addr.(*ssa.Alloc); !isAlloc {
+					badUse = "stored at " + p.Pos(x.Pos())
+				}
+			}
+		case *ssa.BinOp, *ssa.Slice:
+			nuse++
+		}
+	})
+	r.Check(badUse == "", "R-C16.4", r.Key("R-C16.4", join, "size-uses", ""), join.Body.Pos(),
+		"the size bound only feeds comparisons and the truncating slice", "the size bound is "+badUse+": which entries are collected/verified/merged now depends on the bound, so the result is no longer the tail of what the unbounded merge would produce")
 }
